@@ -38,6 +38,28 @@ RANK = {"connecting": 0, "open": 1, "closing": 2, "closed": 3}
 LABELS = ["chat", "", "héllo✓", "数据通道", "a" * 40, "\U0001F600x"]
 
 
+def complete_unordered_waiting(transport):
+    """stream ids whose reassembly queue holds a COMPLETE unordered message (B .. E with consecutive TSNs) that has not
+    been handed to the application: InboundStream.pop_messages skipped it because it followed an incomplete run of
+    fragments, and nothing looked at the queue again after those fragments were pruned (finding K11)"""
+    out = []
+    for sid, st in transport._inbound_streams.items():
+        chunks = list(st.reassembly)
+        for i, c in enumerate(chunks):
+            if (c.flags & 2) and (c.flags & 4):          # first fragment, unordered
+                t = c.tsn
+                for d in chunks[i:]:
+                    if d.tsn != t:
+                        break
+                    if d.flags & 1:
+                        out.append(sid)
+                        break
+                    t = (t + 1) & 0xFFFFFFFF
+                if sid in out:
+                    break
+    return out
+
+
 def _payload(counter, typ, size):
     """unique, self-describing payload"""
     head = ("%06d:" % counter)
@@ -314,6 +336,7 @@ async def _run(case):
             "inbound": [[[sid, st.sequence_number, len(st.reassembly)] for sid, st in sim.eps[e]._inbound_streams.items()]
                         for e in (0, 1)],
             "registered": [sorted(sim.eps[e]._data_channels.keys()) for e in (0, 1)],
+            "complete_unordered_waiting": [complete_unordered_waiting(sim.eps[e]) for e in (0, 1)],
         })
     finally:
         await sim.stop()
